@@ -2,7 +2,7 @@ INIT Init
 NEXT Next
 CONSTANTS
   FTokens <- FTokNames
-  MaxFTokens = 4
+  MaxFTokens = 3
   PosVals <- FValsOne
   MaxPos = 1
   KwNames <- KwNamesEdge
